@@ -163,7 +163,7 @@ def run(ctx):
                         "compared with the float instance of the Coq model run by vm_compute",
                    input_distribution=dict(
                        kinds={k: sum(1 for c in cases if c["kind"] == k) for k in ("single", "ideal")},
-                       grids={g: sum(1 for c in cases if c.get("grid") == g) for g in ("uniform", "quadratic", "geometric", "random", "huge")},
+                       grids={g: sum(1 for c in cases if c.get("grid") == g) for g in ("uniform", "quadratic", "geometric", "random", "huge", "jitter", "tiny")},
                        schedules=sum(1 for c in cases if "sched" in c),
                        errors=sum(1 for im in impls if "error" in im)))
     ctx.samples += [rescorr.describe(c) for c in cases[:4]]
